@@ -7,6 +7,7 @@
    check and the large-instance runs of the C15 check (harness/misc_checks.py). *)
 From Coq Require Import List NArith ZArith Permutation.
 Require Import Base Mol Partition Canon Final Serialize Pipeline MolProofs CanonProofs FinalTotal TotalProofs.
+Require ParamsSpec.   (* regenerated source constants still match what the model hard-codes *)
 Require Equitable.
 
 (* refinement: never out of fuel (fuel = number of atoms + 1), never max() of nothing *)
